@@ -278,14 +278,13 @@ class PointTier(textgrid_tier.TextgridTier):
 
         if doShrink is True:
             newEntries = []
-            diff = end - start
             for point in newTier.entries:
                 if point.time < start:
                     newEntries.append(point)
                 elif point.time > end:
-                    newEntries.append(Point(point.time - diff, point.label))
+                    newEntries.append(Point(start + (point.time - end), point.label))
 
-            newMax = newTier.maxTimestamp - diff
+            newMax = start + (newTier.maxTimestamp - end)
             newTier = newTier.new(entries=newEntries, maxTimestamp=newMax)
 
         return newTier
